@@ -87,6 +87,22 @@ def RpqSt.pushReady (s : RpqSt) (p : Nat) : Option RpqSt :=
 
 def finish (s : RpqSt) (t : String) (r : String) : RpqSt × StepOut := (s.setTask t (.finished r), .done r)
 
+/-- the pipe a task's program counter refers to while it holds the slot's `Arc` (mid-operation) -/
+def Pc.slotHeld : Pc → Option Nat
+  | .sendReserved p _ | .sendWritten p | .sendCounted p _ => some p
+  | .trySendWritten p | .trySendCounted p _ => some p
+  | .batchReserved p _ _ _ _ | .batchWritten p _ _ _ _ | .batchCounted p _ _ _ _ | .batchRolledBack p _ _ _ => some p
+  | .popGotSlot p | .popTaken p _ | .popDecremented p _ _ => some p
+  | .tryPopGotSlot p | .tryPopTaken p _ | .tryPopDecremented p _ _ => some p
+  | _ => none
+
+/-- `Weak::upgrade` of a sender's slot succeeds: the slot is still in the map, on the ready list, or held by
+a task in the middle of an operation -/
+def RpqSt.slotAlive (s : RpqSt) (p : Nat) : Bool :=
+  match s.pipe? p with
+  | none => false
+  | some ps => ps.registered || s.ready.contains p || s.tasks.any (fun e => e.2.slotHeld == some p)
+
 /-- consumer entry: take the next ready entry, or park -/
 def popRecv (s : RpqSt) (t : String) (label : String) (mk : Nat → Pc) (parkPc : Pc) : RpqSt × StepOut :=
   match s.ready with
@@ -102,6 +118,7 @@ def RpqSt.step (s : RpqSt) (t : String) : RpqSt × StepOut :=
     | .finished r => (s, .done r)
     -- ---------------------------------------------------------------- send
     | .sendStart p item =>
+      if !s.slotAlive p then finish s t "err:Closed" else
       match s.pipe? p with
       | none => finish s t "err:Closed"
       | some ps => ((s.setPipe { ps with reserved := ps.reserved + 1 }).setTask t (.sendReserved p item), .at "rpq.send.reserved")
@@ -126,6 +143,7 @@ def RpqSt.step (s : RpqSt) (t : String) : RpqSt × StepOut :=
       else finish s t "ok"
     -- ---------------------------------------------------------------- try_send
     | .trySendStart p item =>
+      if !s.slotAlive p then finish s t "closed" else
       match s.pipe? p with
       | none => finish s t "closed"
       | some ps =>
@@ -147,6 +165,7 @@ def RpqSt.step (s : RpqSt) (t : String) : RpqSt × StepOut :=
       else finish s t "ok"
     -- ---------------------------------------------------------------- try_send_batch
     | .batchStart p items =>
+      if !s.slotAlive p then finish s t s!"sent=0 left={items.length}" else
       match s.pipe? p with
       | none => finish s t s!"sent=0 left={items.length}"
       | some ps =>
